@@ -25,18 +25,29 @@ TRUSTED = ["tools/extractors/C10.py (load_paths table, script-context prefix set
            "harness/ha_env.py (Home Assistant test instance; config reload through the patched yaml loader)"]
 
 # --------------------------------------------------------------------------------------------- file pool
-TOP = ["a.py", "b.py", "c.py"]
-SCRIPTS = ["scripts/s1.py", "scripts/d/s2.py", "scripts/d/e/s3.py"]
+# BOUNDARY values in the pools: names that are prefixes of each other (a / a_b / ab, apps x / x2, modules m / m2 / m.n),
+# a name with several dots and one with digits (a.b.py, a1.py, scripts/d/s.1.py - only where a file name is just a
+# name: top level and scripts), a script with the base name of a module (m.py / modules/m.py), the same script name
+# at three depths (scripts/s1.py, scripts/d/s1.py, scripts/d/e/s1.py), a package with only __init__.py (apps/z,
+# modules/m), an app directory without yaml entry and a yaml entry without files (app w), empty directories.
+TOP = ["a.py", "b.py", "c.py", "a_b.py", "ab.py", "a.b.py", "a1.py", "m.py"]
+SCRIPTS = ["scripts/s1.py", "scripts/d/s2.py", "scripts/d/e/s3.py", "scripts/d/s1.py", "scripts/d/e/s1.py",
+           "scripts/d/s.1.py"]
 APPS = {"x": ["apps/x/__init__.py", "apps/x/h.py", "apps/x/g.py", "apps/x.py"],
-        "y": ["apps/y.py", "apps/y/__init__.py", "apps/y/h.py"]}
+        "y": ["apps/y.py", "apps/y/__init__.py", "apps/y/h.py"],
+        "x2": ["apps/x2.py"],
+        "z": ["apps/z/__init__.py"]}
+APP_NAMES = ["x", "y", "x2", "z", "w"]          # w: only ever a yaml entry, never a file
+EMPTY_DIRS = ["scripts/void", "scripts/d/void", "modules/voidpkg", "apps/voidapp", "apps/w", "void"]
 # module roots in import order: a module may only import roots that come earlier (acyclic by construction)
-MODROOTS = ["m", "n", "p", "q"]
-MODS = {"m": ["modules/m.py", "modules/m/__init__.py"],
+MODROOTS = ["m", "m2", "n", "p", "q"]
+MODS = {"m": ["modules/m.py", "modules/m/__init__.py", "modules/m/n.py"],
+        "m2": ["modules/m2.py"],
         "n": ["modules/n.py"],
         "p": ["modules/p/__init__.py", "modules/p/s.py", "modules/p/t.py"],
         "q": ["modules/q/__init__.py", "modules/q/sub.py", "modules/q.py"]}
 SIBS = {"apps/x/__init__.py": ["h", "g"], "apps/y/__init__.py": ["h"], "modules/p/__init__.py": ["s", "t"],
-        "modules/q/__init__.py": ["sub"], "modules/m/__init__.py": []}
+        "modules/q/__init__.py": ["sub"], "modules/m/__init__.py": ["n"], "apps/z/__init__.py": []}
 RENAMES = [("a.py", "#a.py"), ("scripts/d", "scripts/#d"), ("scripts/s1.py", "scripts/#s1.py"),
            ("apps/x", "apps/#x"), ("modules/p", "modules/#p"), ("modules/n.py", "modules/#n.py"),
            ("apps/y.py", "apps/#y.py"), ("modules/p/s.py", "modules/p/#s.py")]
@@ -52,6 +63,8 @@ def comps(rel):
 EMPTY_TEXT = ["", "  \n\n", "# nothing to run here\n"]
 EMPTY_ID = [900001, 900002, 900003]
 CFG_NONE = -1      # an app whose yaml entry is empty (`my_app:` parses to None): configured, value None
+CFG_INNER_NONE = 7  # an entry with a None VALUE inside: `my_app: {k: }`
+CFG_VALUES = [CFG_NONE, CFG_NONE, 0, 1, 2, 3, CFG_INNER_NONE]
 
 
 def gen_of_text(text):
@@ -93,6 +106,8 @@ def rand_imports(rng, rel, sibrel, present=None):
             continue
         if m == "p" and rng.random() < 0.3:
             out.append([0, "p." + rng.choice(["s", "t"])])
+        elif m == "m" and rng.random() < 0.3:
+            out.append([0, "m.n"])
         elif m == "q" and rng.random() < 0.4:
             out.append([0, "q.sub"])
         else:
@@ -125,6 +140,8 @@ class Sim:
         self.gen = 0
         self.clock = 1000000
         self.prog = {}      # gen -> imports
+        self.hist = {}      # rel -> list of versions {"gen", "mtime", "imports"} that were on disk at some time
+        self.ever = set()   # every rel that ever existed (names of deleted files are good reload(name) arguments)
 
     def apply(self, op, root=None):
         k = op["op"]
@@ -142,12 +159,33 @@ class Sim:
                 mt = self.clock
             self.disk[op["rel"]] = {"gen": g, "mtime": mt, "imports": op["imports"]}
             self.prog[g] = op["imports"]
+            self.hist.setdefault(op["rel"], []).append(dict(self.disk[op["rel"]]))
+            self.ever.add(op["rel"])
             if root:
                 p = os.path.join(root, op["rel"])
                 os.makedirs(os.path.dirname(p), exist_ok=True)
                 with open(p, "w") as f:
                     f.write(script_text(g, op["imports"]))
                 os.utime(p, (mt, mt))
+        elif k == "restore":
+            # put an earlier version of the file back: identical content, with its old mtime ("same") or a new one -
+            # delete -> recreate, and a change that is reverted before the reload
+            vs = self.hist.get(op["rel"], [])
+            if vs:
+                v = dict(vs[op["ver"] % len(vs)])
+                if op.get("mtime") != "same":
+                    self.clock += 1
+                    v["mtime"] = self.clock
+                self.disk[op["rel"]] = v
+                if root:
+                    p = os.path.join(root, op["rel"])
+                    os.makedirs(os.path.dirname(p), exist_ok=True)
+                    with open(p, "w") as f:
+                        f.write(script_text(v["gen"], v["imports"]))
+                    os.utime(p, (v["mtime"], v["mtime"]))
+        elif k == "mkdir":
+            if root:
+                os.makedirs(os.path.join(root, op["rel"]), exist_ok=True)   # an empty directory: nothing to load
         elif k == "touch":
             if op["rel"] in self.disk:
                 self.clock += 1
@@ -167,6 +205,7 @@ class Sim:
                 for r, v in moved.items():
                     del self.disk[r]
                     self.disk[dst + r[len(src):]] = v
+                    self.ever.add(dst + r[len(src):])
                 if root:
                     os.makedirs(os.path.dirname(os.path.join(root, dst)), exist_ok=True)
                     os.rename(os.path.join(root, src), os.path.join(root, dst))
@@ -183,6 +222,8 @@ class Sim:
 def cfg_value(k):
     if k == CFG_NONE:
         return None
+    if k == CFG_INNER_NONE:
+        return {"k": None}
     return {} if k == 0 else {"k": k}
 
 
@@ -194,6 +235,8 @@ def cfg_norm(k):
 def cfg_id(v):
     if v is None:
         return None
+    if isinstance(v, dict) and "k" in v and v["k"] is None:
+        return CFG_INNER_NONE
     return v.get("k", 0) if isinstance(v, dict) else -1
 
 
@@ -201,7 +244,7 @@ def cfg_id(v):
 def gen_tree_ops(rng, sibrel):
     """initial population"""
     ops = []
-    files = [f for f in ALL_FILES if rng.random() < (0.85 if f.startswith("modules/") else 0.6)]
+    files = [f for f in ALL_FILES if rng.random() < (0.8 if f.startswith("modules/") else 0.45)]
     # the module form and the package form of one root rarely coexist
     for forms in (("apps/x.py", "apps/x/__init__.py"), ("apps/y.py", "apps/y/__init__.py"),
                   ("modules/m.py", "modules/m/__init__.py"), ("modules/q.py", "modules/q/__init__.py")):
@@ -221,6 +264,11 @@ def gen_edit(rng, sim, sibrel):
     if r < 0.05 and present and not sibrel:
         return {"op": "write", "rel": rng.choice(present), "imports": [], "empty": rng.choice([0, 0, 1, 2]),
                 "keep_mtime": rng.random() < 0.1}
+    if r < 0.13 and sim.hist:
+        rel = rng.choice(sorted(sim.hist))
+        return {"op": "restore", "rel": rel, "ver": rng.randrange(8), "mtime": rng.choice(["same", "same", "new"])}
+    if r < 0.15:
+        return {"op": "mkdir", "rel": rng.choice(EMPTY_DIRS)}
     if r < 0.30 and present:
         rel = rng.choice(present)
         return {"op": "write", "rel": rel, "imports": rand_imports(rng, rel, sibrel, set(present))
@@ -239,15 +287,15 @@ def gen_edit(rng, sim, sibrel):
         if rng.random() < 0.5 or not any(x == a or x.startswith(a + "/") for x in sim.disk):
             a, b = b, a
         return {"op": "rename", "src": a, "dst": b}
-    app = rng.choice(["x", "y"])
+    app = rng.choice(APP_NAMES)
     if app in sim.cfg and rng.random() < 0.5:
         return {"op": "cfg", "app": app, "val": None}
-    return {"op": "cfg", "app": app, "val": rng.choice([CFG_NONE, CFG_NONE, 0, 1, 2, 3])}
+    return {"op": "cfg", "app": app, "val": rng.choice(CFG_VALUES)}
 
 
 def gen_case(rng, family, nsteps):
     sibrel = family == "sibrel"
-    apps0 = {a: rng.choice([CFG_NONE, 0, 1, 2]) for a in ("x", "y") if rng.random() < 0.7}
+    apps0 = {a: rng.choice(CFG_VALUES) for a in APP_NAMES if rng.random() < 0.6}
     sim = Sim(apps0)
     steps = []
     first = gen_tree_ops(rng, sibrel)
@@ -262,14 +310,27 @@ def gen_case(rng, family, nsteps):
             edits.append(op)
         r = rng.random()
         only = None
+        fresh = False
         if r < 0.12:
             only = "*"
         elif r < 0.30:
-            names = sorted({doc_name(comps(rel)) for rel in sim.disk if not commented(comps(rel))})
-            pool = names + ["file.zz", "modules.zz"]
+            # a context that exists, one whose file was deleted (perhaps just now), a module, a package member, a
+            # name that never existed
+            names = sorted({doc_name(comps(rel)) for rel in sim.ever if not commented(comps(rel))})
+            pool = names + ["file.zz", "modules.zz", "apps.w", "file"]
             only = rng.choice(pool) if pool else None
-        steps.append({"edits": edits, "only": only})
-    return {"family": family, "apps0": apps0, "steps": steps}
+        elif r < 0.36:
+            fresh = True      # unload the integration and set it up again in the same process
+        elif r < 0.50:
+            edits = edits if rng.random() < 0.5 else []   # often: a reload although nothing changed
+        st = {"edits": edits, "only": only}
+        if fresh:
+            st["fresh"] = True
+        steps.append(st)
+    # the third and later reloads without any change
+    for _ in range(rng.choice([0, 0, 1, 2])):
+        steps.append({"edits": [], "only": None})
+    return {"family": family, "apps0": apps0, "steps": steps, "legacy": rng.random() < 0.5}
 
 
 def W(rel, *imports):
@@ -347,6 +408,46 @@ def fixed_cases():
         {"edits": [{"op": "cfg", "app": "x", "val": CFG_NONE}, {"op": "cfg", "app": "y", "val": None}], "only": None},
         {"edits": [{"op": "cfg", "app": "y", "val": CFG_NONE}], "only": None},
         {"edits": [{"op": "cfg", "app": "x", "val": None}], "only": None}]})
+    # boundary values (1) empty things, (2) names, (3) sequences - one walk-through each
+    out.append({"family": "fixed", "apps0": {"w": 1, "z": CFG_INNER_NONE}, "legacy": True, "steps": [
+        {"edits": [{"op": "mkdir", "rel": "scripts/void"}, {"op": "mkdir", "rel": "modules/voidpkg"},
+                   {"op": "mkdir", "rel": "apps/w"}, {"op": "mkdir", "rel": "apps/voidapp"},
+                   W("apps/z/__init__.py"), W("apps/x2.py"), W("modules/m/__init__.py"), W("a.py", (0, "m"), (0, "voidpkg")),
+                   W("b.py", (0, "m")), E("c.py", 2)], "only": None},
+        {"edits": [], "only": None},
+        {"edits": [{"op": "cfg", "app": "voidapp", "val": 1}, {"op": "cfg", "app": "x2", "val": CFG_NONE}], "only": None},
+        {"edits": [{"op": "cfg", "app": "z", "val": 0}], "only": None},
+        {"edits": [{"op": "cfg", "app": "z", "val": None}, {"op": "cfg", "app": "w", "val": None},
+                   {"op": "cfg", "app": "x2", "val": None}, {"op": "cfg", "app": "voidapp", "val": None}], "only": None},
+        {"edits": [], "only": None}]})
+    out.append({"family": "fixed", "apps0": {"x": 1, "x2": 2}, "legacy": False, "steps": [
+        {"edits": [W("a.py", (0, "m")), W("a_b.py", (0, "m2")), W("ab.py", (0, "m.n")), W("a.b.py"), W("a1.py"),
+                   W("m.py", (0, "m")), W("modules/m/__init__.py", (1, "n")), W("modules/m/n.py"), W("modules/m2.py", (0, "m")),
+                   W("apps/x.py"), W("apps/x2.py"), W("scripts/s1.py"), W("scripts/d/s1.py"), W("scripts/d/e/s1.py"),
+                   W("scripts/d/s.1.py")], "only": None},
+        {"edits": [W("modules/m2.py", (0, "m"))], "only": None},
+        {"edits": [W("modules/m/n.py")], "only": None},
+        {"edits": [{"op": "touch", "rel": "a.py"}], "only": None},
+        {"edits": [{"op": "cfg", "app": "x", "val": 3}], "only": None},
+        {"edits": [], "only": "file.a"}, {"edits": [], "only": "file.a.b"}, {"edits": [], "only": "scripts.d.s1"},
+        {"edits": [], "only": "modules.m"}, {"edits": [], "only": "modules.m.n"}, {"edits": [], "only": "apps.x"},
+        {"edits": [{"op": "delete", "rel": "scripts/d/s1.py"}], "only": "scripts.d.s1"},
+        {"edits": [], "only": "scripts.d.s1"}, {"edits": [], "only": "file"}, {"edits": [], "only": None}]})
+    out.append({"family": "fixed", "apps0": {}, "legacy": True, "steps": [
+        {"edits": [W("a.py", (0, "m")), W("b.py"), W("modules/m.py")], "only": None},
+        {"edits": [], "only": None}, {"edits": [], "only": None}, {"edits": [], "only": None},
+        # delete -> recreate with identical content: same mtime (nothing changed), different mtime (changed)
+        {"edits": [{"op": "delete", "rel": "b.py"}, {"op": "restore", "rel": "b.py", "ver": 0, "mtime": "same"}], "only": None},
+        {"edits": [{"op": "delete", "rel": "b.py"}, {"op": "restore", "rel": "b.py", "ver": 0, "mtime": "new"}], "only": None},
+        # a change that is reverted before the reload
+        {"edits": [W("modules/m.py"), {"op": "restore", "rel": "modules/m.py", "ver": 0, "mtime": "same"}], "only": None},
+        {"edits": [{"op": "delete", "rel": "modules/m.py"}, {"op": "restore", "rel": "modules/m.py", "ver": 0, "mtime": "same"}],
+         "only": None},
+        # unload followed by a fresh set-up in the same process, then business as usual
+        {"edits": [], "only": None, "fresh": True},
+        {"edits": [W("b.py")], "only": None},
+        {"edits": [W("a.py", (0, "m"))], "only": None, "fresh": True},
+        {"edits": [], "only": None}]})
     # package form replaces module form (and back)
     out.append({"family": "fixed", "apps0": {"y": 1}, "steps": [
         {"edits": [W("a.py", (0, "m")), W("modules/m.py"), W("apps/y.py")], "only": None},
@@ -385,11 +486,17 @@ def mk_case(payload):
 
 
 # --------------------------------------------------------------------------------------------- model line
-def only_sx(only):
+def only_sx(only, sim=None):
     if only is None:
         return "default"
     if only == "*":
         return "all"
+    # a file name may contain dots (a.b.py): find the components of the context name among the files ever seen
+    if sim is not None:
+        for rel in sorted(sim.ever):
+            cs = comps(rel)
+            if not commented(cs) and doc_name(cs) == only:
+                return ["ctx"] + doc_comps(cs)
     return ["ctx"] + only.split(".")
 
 
@@ -408,7 +515,7 @@ def model_line(payload):
     for st, snap, sim in walk(payload):
         disk = [[comps(rel), v["gen"], v["mtime"]] for rel, v in sorted(snap["disk"].items())]
         apps = [[a, cfg_norm(k)] for a, k in sorted(snap["cfg"].items())]
-        steps.append([only_sx(st["only"]), apps, disk])
+        steps.append([only_sx(st["only"], sim), apps, disk, 1 if st.get("fresh") else 0])
     prog = [[g, [[lv] + m.split(".") for lv, m in imps]] for g, imps in sorted(sim.prog.items())] if sim else []
     return "C10 " + sx(["run", prog, steps])
 
@@ -444,15 +551,29 @@ def _run_one(payload):
             ps_eval.AstEval.eval = orig_eval
 
     async def steps_body(env, root, sim, oids, keep, nev, loads):
+        stepno = 0
         for st in payload["steps"]:
             for op in st["edits"]:
                 sim.apply(op, root)
-            env.config["pyscript"]["apps"] = {a: cfg_value(k) for a, k in sim.cfg.items()}
+            apps_now = {a: cfg_value(k) for a, k in sim.cfg.items()}
+            if not apps_now and stepno % 2 == 1:
+                env.config["pyscript"].pop("apps", None)      # no `apps:` key at all
+            else:
+                env.config["pyscript"]["apps"] = apps_now
+            stepno += 1
             env.records.clear()
             env.log.clear()
             del loads[:]
             try:
-                await env.reload(st["only"])
+                if st.get("fresh"):
+                    # unload followed by a fresh set-up of the config entry in the same process
+                    for entry in env.hass.config_entries.async_entries("pyscript"):
+                        await env.hass.config_entries.async_unload(entry.entry_id)
+                        await env.settle(0)
+                        await env.hass.config_entries.async_setup(entry.entry_id)
+                    await env.settle(0)
+                else:
+                    await env.reload(st["only"])
                 err = None
             except Exception as e:  # an exception escaping the reload service is an outcome
                 err = type(e).__name__
@@ -477,7 +598,8 @@ def _run_one(payload):
         return obs
 
     try:
-        return run_ha({}, False, body, extra_cfg={"apps": {a: cfg_value(k) for a, k in payload["apps0"].items()}})
+        return run_ha({}, bool(payload.get("legacy", False)), body,
+                      extra_cfg={"apps": {a: cfg_value(k) for a, k in payload["apps0"].items()}})
     except Exception as e:  # pragma: no cover - harness trouble shows up as a mismatch, never silently
         return [{"events": [], "ctxs": [], "err": "harness:" + type(e).__name__ + ":" + str(e)[:200], "nerr": 0,
                  "recursion": False}]
@@ -521,6 +643,8 @@ def run_impl(cases):
             if o.get("err"):
                 blocks.append("raise:" + o["err"])
                 continue
+            if st.get("fresh"):
+                prev = []     # everything was unloaded before the set-up loaded the tree again
             ev = " ".join(f"{n}:{g}" for n, g in o["events"])
             cx = " ".join(f"{x['name']}:{x['gen']}:{x['oid']}:{x['mod']}:{','.join(x['imports'])}" for x in o["ctxs"])
             if st["only"] is None:
@@ -536,6 +660,13 @@ def run_impl(cases):
 # --------------------------------------------------------------------------------------------- documented behaviour (oracle)
 def commented(cs):
     return any(x.startswith("#") for x in cs)
+
+
+def doc_comps(cs):
+    """components of the documented context name"""
+    if len(cs) == 1:
+        return ["file", cs[0]]
+    return cs[:-1] if cs[-1] == "__init__" else list(cs)
 
 
 def doc_name(cs):
@@ -729,6 +860,8 @@ def deviations(payload):
             devs.append(("harness" if o["err"].startswith("harness") else "raise", f"step {idx}: {o['err']}"))
             break
         ents = doc_entries(snap)
+        if st.get("fresh"):
+            prev = []         # everything was unloaded before the set-up loaded the tree again
         post = {c["name"]: c for c in o["ctxs"]}
         prevd = {c["name"]: c for c in prev}
         kept = {n for n, c in prevd.items() if n in post and post[n]["oid"] == c["oid"]}
@@ -975,7 +1108,10 @@ def extra_coverage(cases):
             nsteps += 1
             for op in st["edits"]:
                 ops[op["op"]] = ops.get(op["op"], 0) + 1
-            k = "default" if st["only"] is None else ("*" if st["only"] == "*" else "name")
+            k = "fresh-setup" if st.get("fresh") else (
+                "default" if st["only"] is None else ("*" if st["only"] == "*" else "name"))
+            if not st["edits"] and st["only"] is None and not st.get("fresh"):
+                onlys["default-without-any-edit"] = onlys.get("default-without-any-edit", 0) + 1
             onlys[k] = onlys.get(k, 0) + 1
         for o in c.payload.get("_obs") or []:
             nctx += len(o["ctxs"])
